@@ -142,4 +142,30 @@ func init() {
 			"the same token never counts for two reporters within one window (history property)",
 		},
 	})
+	reg(&PropDef{
+		ID:    "C09",
+		Title: "Each reward is split exactly, non-negatively and in proportion to backing stake",
+		Funcs: fcNP("x/oracle/keeper.CalculateRewardAmount", "x/oracle/keeper.Keeper.AllocateRewards", "x/oracle/keeper.Keeper.AllocateTip", "x/reporter/keeper.Keeper.DivvyingTips"),
+		Assumptions: []string{
+			"LegacyDec Mul/Quo as banker's-rounded 18-decimal arithmetic (cosmossdk.io/math v1.3.0), given relationally (is_round_he / is_tdiv)",
+			"stored stake records (reporter.Report) have a positive Total and non-nil token origins",
+		},
+		NotDecided: []string{
+			"non-negativity of every credit and of the last reporter's remainder, and the n*10^-18 bound between the sum of selector credits and the reward: nonlinear bounds over all reporters are not carried",
+			"proportionality across reporters (the map-building passes of AllocateRewards have no functional invariants yet); the call-site preconditions of CalculateRewardAmount and AllocateTip inside AllocateRewards are therefore not claimed",
+			"time-based reward list and amount (SetAggregatedReport); commission bound at reporter creation",
+		},
+	})
+	reg(&PropDef{
+		ID:    "C04",
+		Title: "Escrow accounts always cover what the chain says it owes",
+		Funcs: fcNP("x/oracle/keeper.msgServer.Tip", "x/oracle/keeper.Keeper.transfer", "x/oracle/keeper.Keeper.AllocateRewards", "x/reporter/keeper.Keeper.DivvyingTips",
+			"x/bridge/keeper.Keeper.ClaimDeposit", "x/bridge/keeper.Keeper.WithdrawTokens"),
+		Assumptions: []string{
+			"per-operation conservation only: each function moves exactly the stated amounts between bank accounts and ledgers",
+		},
+		NotDecided: []string{
+			"the block-boundary invariants (oracle account == sum of open tips, tips escrow >= sum of credits, dispute account >= escrow) as inductive invariants over all handlers; Query.Amount bookkeeping in Tip; WithdrawTip; dispute account flows",
+		},
+	})
 }
